@@ -75,6 +75,16 @@ fn run_req(ctx: &Ctx, r: &Req, tag: &str) -> (cli::RunOut, String) {
     }
     let f = dir.join("out.txt");
     if r.to_file {
+        // the output file already exists and is longer than what will be written (feasible requests only:
+        // an infeasible request must not write anything, which is checked on a fresh path)
+        let feasible = match (r.v, r.e, r.complete) {
+            (Some(_), _, true) => true,
+            (Some(v), Some(e), false) => e <= if r.undirected { v * v.saturating_sub(1) / 2 } else { v * v.saturating_sub(1) },
+            _ => false,
+        };
+        if feasible {
+            let _ = std::fs::write(&f, super::common::stale_content());
+        }
         args.push("-o".into());
         args.push(f.display().to_string());
     }
